@@ -71,6 +71,8 @@ FAMILIES = (
     ("meter", "foot", "inch", "yard", "mile"),
     ("gram", "kilogram", "pound", "ounce"),
     ("second", "minute", "hour", "day"),
+    # the inverse of a time: products with the time family cancel to a bare prefix (kHz x s)
+    ("hertz", "fresnel"),
 )
 PREFIXES = ("", "kilo", "milli", "centi", "micro", "mega")
 FAMILY_OF = {u: i for i, fam in enumerate(FAMILIES) for u in fam}
